@@ -1150,7 +1150,7 @@ func genCase(r *hlib.Rand, k int) input {
 		}
 		in.Cancel = hlib.Pick(r, []int{50, 200, 600, 1500})
 	}
-	if in.Mode == "forwarded" && r.Chance(1, 4) {
+	if in.Mode == "forwarded" && r.Chance(1, 5) {
 		// upstream faults: the forwarder must retry with the same payload (its backoff starts at 0.5 s)
 		for i, n := 0, r.Range(1, 3); i < n; i++ {
 			in.UpFaults = append(in.UpFaults, hlib.Pick(r, []int{0, 1, 1, 2, 3}))
